@@ -144,3 +144,6 @@ Proof.
   - clear - Em. unfold all_marks in Em. rewrite <- (app_nil_l (snd (walk [] its))). apply crlf_split_marks; [exact Em|reflexivity].
   - cbn [forallb E.provisos_item] in K2. rewrite andb_true_r in K2. exact K2.
 Qed.
+
+Print Assumptions den_walk.
+Print Assumptions provisos_walk.
